@@ -23,6 +23,7 @@ pub mod common;
 pub mod inst;
 pub mod vault;
 pub mod c15_scale;
+pub mod sigshape;
 
 props! {
     "C01" => c01,
